@@ -7,7 +7,7 @@ float never exact) evaluated by the driver on the library's own results."""
 import vlib
 from checks import numcommon as nc
 
-PROOF_MODULES = []
+PROOF_MODULES = ["Num/NumC06.vo"]
 OBLIGATIONS = [
     "C06/P_addnum_comm.v", "C06/P_mulnum_comm.v", "C06/P_nan_absorbs.v", "C06/P_inf_rules.v",
     "C06/P_float_never_exact.v", "C06/P_basic_comm.v", "C06/P_nonvacuous.v",
